@@ -395,7 +395,10 @@ fn random_op(rng: &mut Rng, allow_builders: bool, allow_sublex: bool) -> Op {
         6 => Op::NextIfEq(*rng.pick(&kinds)),
         7 => Op::AdvanceTo(*rng.pick(&kinds)),
         8 => Op::AdvanceUpTo(*rng.pick(&kinds)),
-        9 | 10 => Op::SetFilter(if rng.chance(1, 3) { None } else { Some(*rng.pick(&[1u32, 3, 5, 15, 2, 4, 8])) }),
+        9 => Op::SetFilter(if rng.chance(1, 3) { None } else { Some(*rng.pick(&[1u32, 3, 5, 15, 2, 4, 8])) }),
+        // the builder form of a filter change, also in the middle of a history
+        10 => if rng.chance(1, 2) { Op::WithFilter(if rng.chance(1, 3) { None } else { Some(*rng.pick(&[1u32, 3, 5, 15, 2, 4, 8])) }) }
+              else { Op::SetFilter(if rng.chance(1, 3) { None } else { Some(*rng.pick(&[1u32, 3, 5, 15, 2, 4, 8])) }) },
         11 => if allow_sublex { if rng.chance(1, 2) { Op::StartSublex } else { Op::IntoSublexer } } else { Op::Spans },
         12 => Op::Spans,
         13 => Op::WithLineEnding(*rng.pick(LINE_ENDINGS)),
